@@ -197,6 +197,11 @@ def _transform_rule(ctx, out, qname, getter, elem_cls_mod, name):
             return True
         if cname == "float" and args and isinstance(args[0], Obj) and hasattr(args[0], "area"):
             return args[0].area
+        if cname in ("invert", "__invert__", "__neg__") and isinstance(recv, Obj) and getattr(recv, "is_curve", False):
+            # the orientation of a boundary curve is part of the region it bounds
+            recv.__dict__["area"] = -recv.__dict__["area"]
+            recv.__dict__["reversed"] = recv.__dict__.get("reversed", 0) + 1
+            return recv
         # a boundary curve of the stand-in shape: its transformation is the repository's own JordanCurve method
         if cname in NAMES and isinstance(recv, Obj) and getattr(recv, "is_curve", False):
             jcalls.append((recv, cname))
@@ -267,6 +272,12 @@ def _transform_rule(ctx, out, qname, getter, elem_cls_mod, name):
                 out.bad(qname, f"elements are transformed by {sorted({m for _, m in jcalls})} instead of the same-named "
                                f"method", where=fn.where())
                 return
+        flipped = [c.label if hasattr(c, "label") else str(c) for c in curves if c.__dict__.get("reversed", 0) % 2]
+        if flipped:
+            out.bad(qname, "the transformation reverses boundary curves: with positive factors / a rigid motion every curve "
+                           "keeps its orientation (a clockwise curve bounds a hole or an unbounded region)", where=fn.where(),
+                    detail=f"{label}: curves with signed areas (9, -1, -2), reversed afterwards: {flipped}")
+            return
         if not any(counts):
             out.bad(qname, f"does not visit self.{getter}", where=fn.where(), detail=label)
             return
